@@ -3,7 +3,8 @@
 M    TLC (MC_Strings): the string-filter reference of Strings.tla satisfies the laws of the statement (case filters change
      only letter case, trim* remove only matching ends, truncate keeps at most `length` characters plus the marker, split
      gives n+1 pieces); (MC_Sigs): the type tests partition values.
-S→I  (a) every string of length <= MaxLen over {a A é É space \\n \\r\\n . < '} through 19 string filters: exact reference text;
+S→I  (a) every string of length <= MaxLen over {a A é É space \\n \\r\\n . < '}, and every word of 1 or 2 of these tokens repeated to 24
+     tokens (more bytes than a string holds inline), through 19 string filters: exact reference text;
      (b) the signature matrix: 36 filters, 17 tests, 2 functions x receiver of each of 9 kinds x each keyword argument
      absent / of the right kind / of a wrong kind: Ok, error, "missing argument" vs "mistyped argument" (observed
      structurally through State::call_filter, no message text), never a panic;
@@ -31,7 +32,7 @@ def run(tier):
         f.write(open(vp.SPEC + "/MC_Strings.cfg").read().replace("MaxLen = 3", "MaxLen = %d" % maxlen))
     r = vp.tlc("MC_Strings", "MC_Strings_run", workers=8, timeout=3000, name="c17-str", xmx="16g")
     C.add_tlc(r, "MC_Strings MaxLen=%d" % maxlen)
-    C.cov["rule"] = ("(a) all strings of length <= %d over 10 character tokens x 19 string filters (+ truncate lengths, indent flags); (b) signature matrix cells; "
+    C.cov["rule"] = ("(a) all strings of length <= %d over 10 character tokens, and the 100 long ones (every word of 1 or 2 tokens repeated to 24 tokens: 24 to 48 bytes, beyond what a string holds inline) x 19 string filters (+ truncate lengths, indent flags); (b) signature matrix cells; "
                      "(c) range / default / type tests / conversions; non-trivial = distinct cell with a specified outcome" % maxlen)
     jobs, meta = [], []
 
